@@ -48,7 +48,7 @@ def jobs(tier: str) -> list:
                                SPINESLOTS=ALL_SLOTS), True, False, False),
         ("probes", dict(base, PARTS='{"shape", "doc"}', DOCORIGINS='{"static"}', PROBE="TRUE", INVARIANTS=""), True, False, True),
         ("shape/defect", dict(base, PARTS='{"shape"}', ORIGINS='{"inspect_nosrc", "namespace"}', SDOMAIN="defect", EMIT="FALSE",
-                              INVARIANTS="INVARIANT SchemaConforms"), False, True, False),
+                              INVARIANTS="INVARIANT SchemaConforms\nINVARIANT FullDumpExists"), False, True, False),
     ]
     if tier == "thorough":
         out.append(("shape/clean", dict(base, PARTS='{"shape", "doc"}', ORIGINS=DISK_ORIGINS, DOCORIGINS=docorg, LATTICE=lattice, SDOMAIN="clean",
@@ -194,6 +194,11 @@ def main(tier: str, replay: str | None = None):
             # the schema rejects a shape of the clean domain: the replay below shows it on the real code
             tlc.must(res, allow_violations=True)
             run.note(f"TLC: {res.violated} violated in {label}: the published schema rejects clean shapes; see the replay verdicts")
+            # TLC stops at the first violation: enumerate the whole space again without the invariant, so that every
+            # descriptor is replayed and the real code decides
+            _j, res = run_tlc((label, dict(job[1], INVARIANTS=""), True, False, False), wk * par)
+            tlc.must(res)
+            run.add_tlc(res)
         else:
             tlc.must(res)
         if emits and not res.cases:
